@@ -71,11 +71,17 @@ def workdir(name):
     return d
 
 
+def _kgen_out(cmd, path):
+    d = os.path.join(WORK, 'kgen_out')
+    os.makedirs(d, exist_ok=True)
+    return os.path.join(d, '%s.%s.json' % (hashlib.sha1(os.path.abspath(path).encode()).hexdigest()[:16], cmd))
+
+
 def kgen_one(cmd, path, timeout=20):
     """Runs the real pipeline on one file in a child process under a watchdog.
     Returns dict with status in ok|err|panic|abort|hang|not-utf8."""
     k = build_kgen()
-    out = path + '.' + cmd + '.json'
+    out = _kgen_out(cmd, path)
     try:
         os.remove(out)
     except FileNotFoundError:
@@ -101,7 +107,7 @@ def kgen_many(cmd, paths, timeout_each=20):
     def run_chunk(ixs):
         with tempfile.NamedTemporaryFile('w', suffix='.lst', delete=False, dir=WORK) as f:
             for i in ixs:
-                out = paths[i] + '.' + cmd + '.json'
+                out = _kgen_out(cmd, paths[i])
                 try:
                     os.remove(out)
                 except FileNotFoundError:
@@ -115,7 +121,7 @@ def kgen_many(cmd, paths, timeout_each=20):
             pass
         os.remove(lst)
         for i in ixs:
-            out = paths[i] + '.' + cmd + '.json'
+            out = _kgen_out(cmd, paths[i])
             if os.path.exists(out):
                 try:
                     with open(out, encoding='utf8') as f:
@@ -212,7 +218,7 @@ class Result:
             return 1
         if self.inconclusive:
             for m in self.inconclusive[:20]:
-                print('INCONCLUSIVE: ' + str(m)[:2000])
+                print('INCONCLUSIVE: ' + str(m)[:600])
             return 2
         print('OK property=%s tier=%s wall=%.1fs' % (self.prop, self.tier, time.time() - self.t0))
         return 0
